@@ -670,7 +670,7 @@ def run(ck, prog):
     ck.doc('C08.R3', 'the configured cardinality limit reaches every AttributesHashMap a storage creates', 3)
     ck.doc('C08.R4', 'overflow guard arithmetic; lookup miss -> overflow test -> insertion in every GetOrSetDefault', 5)
     ck.doc('C08.R5', 'a value stored under the shared overflow key is merged, not replaced', 2)
-    ck.doc('C08.R6', 'filter gates insertion; filter key lookups use the full view; the storage\'s processor reaches every key built from caller attributes', 6)
+    ck.doc('C08.R6', 'filter gates insertion; filter key lookups use the full view; allowed <=> in the allow-list; the storage\'s processor reaches every key built from caller attributes', 7)
     ck.doc('C08.R7', 'attribute setters store last-write-wins; no other member stores with a non-overwriting call', 4)
     with ck.canary('C08.R2'):
         rule_r2(ck, prog, cls='canary::c08::BadKey')
@@ -686,4 +686,9 @@ def run(ck, prog):
     rule_r6_processor_reaches_key(ck, prog)
     rule_r7(ck, prog)
     rule_r7_bulk(ck, prog)
+    # "the total over all reported series equals everything recorded, for delta and cumulative readers alike": the reader fan-out of
+    # buildMetrics (shared with C06) is a prerequisite - a delta report that bypasses the per-reader stash loses series for the others
+    from . import c06
+    ck.doc('C06.R3', '(shared rule, see C06) buildMetrics reader fan-out: fast path only for a single reader; no early return before the stash', 5)
+    c06.build_metrics_rules(ck, prog, rule4=None)
     return {}
